@@ -20,6 +20,10 @@ def _observe(cd):
         o["phase_indices"] = enc.ints(cd.phase_indices())
         o["phase_mean"] = enc.arr(cd.phase_mean())
         o["anomaly"] = enc.arr(cd.anomaly())
+        # the time indices of the first and the last phase of the cycle, sorted
+        sel = sorted({0, cd.time_cycle - 1})
+        o["sel_phases"] = sel
+        o["isp"] = enc.ints(cd.indices_selected_phases(sel))
     except Exception as ex:
         o["exc"] = type(ex).__name__
     return {"op": "observe", "obs": o}
